@@ -14,7 +14,7 @@ open Statrs Statrs.Gen Statrs.Lemmas.ClosedCdf
 
 /-! ### Uniform — `new` accepts iff min < max (finiteness is vacuous over ℝ) -/
 
-theorem uniform_cdf_nonneg (d : Uniform ℝ) (h : d.f_min < d.f_max) (x : ℝ) :
+theorem uniform_cdf_nonneg (d : Uniform ℝ) (x : ℝ) :
     0 ≤ Uniform.cdf d x := by
   rw [uniform_cdf_eq]
   split_ifs <;> first | (norm_num; done) | (apply div_nonneg <;> linarith)
